@@ -24,6 +24,7 @@ deriving DecidableEq, Repr
 structure Method where
   name : String
   params : List Param
+  isAsync : Bool          -- defined with `async def`
 deriving DecidableEq, Repr
 
 structure Cls where
@@ -84,6 +85,14 @@ def asyncOnly (s a : Table) : List (String × String) :=
     match findCls s d.key with
     | none => [(d.key, "")]
     | some c => (d.methods.filter (fun n => (findMethod c n.name).isNone)).map (fun n => (d.key, n.name))
+
+/-- coroutine discipline of the two tables: every method of the sync table is a plain `def`; a method of the
+    async table is an `async def` exactly when it is not in the audited list `plain` of (class key, method).
+    Result: (class key, method, what) for every violation. -/
+def coroutineMismatches (plain : List (String × String)) (s a : Table) : List (String × String × String) :=
+  (s.flatMap fun c => (c.methods.filter (·.isAsync)).map fun m => (c.key, m.name, "async def in a sync class")) ++
+  (a.flatMap fun d => (d.methods.filter (fun n => n.isAsync == plain.contains (d.key, n.name))).map fun n =>
+      (d.key, n.name, if n.isAsync then "async def but audited as plain" else "plain def but not audited as plain"))
 
 def renderMismatch (x : Mismatch) : String := s!"{x.1}|{x.2.1}|{x.2.2.1}|{x.2.2.2}"
 
